@@ -50,7 +50,7 @@ func ProcessSplunkHecIngestRequest(ctx *fasthttp.RequestCtx, myid int64) {
 		return
 	}
 
-	jsonObjects, err := utils.ExtractSeriesOfJsonObjects(body)
+	jsonObjects, err := utils.ExtractSeriesOfJsonObjectsWithNumbers(body)
 	if err != nil {
 		utils.SendError(ctx, "Unable to read json request", "", err)
 		return
